@@ -1,4 +1,5 @@
 import CkbVerif.Lemmas.Window
+import CkbVerif.Lemmas.WindowConsumers
 
 /-!
 # C20 — the node's proposal view equals the on-chain proposal window, also after restart
@@ -11,6 +12,11 @@ ids of block `n`). The spec side:
 * `InSet w chain x` — `x` is proposed in a non-genesis main-chain block `n` with
   `w.close ≤ chain.length − n ≤ w.far` (distance to the next block, whose number is `chain.length`);
 * `InGap w chain x` — the same with distance `< w.close`.
+
+The consumers of the view are in `CkbVerif/Model/WindowConsumers.lean`: `txStatus` (`get_tx_status`
+of the tx-pool: `set` first, then `gap`, else fresh), `stageAfter` (the per-entry stage move of
+`_update_tx_pool_for_reorg`), and three variants used only as decided witnesses (`txStatusGapFirst`,
+`switchSkip`, `verifierIdsFromParent`).
 
 Everything is parametric in the window, under `WinOk w : 1 ≤ w.close ≤ w.far`; the generated
 consensus default satisfies it (`default_window_ok`). `ChainOk` = the chain is non-empty and the
@@ -125,6 +131,163 @@ example : WinOk ⟨1, 2⟩ := ⟨by decide, by decide⟩
 /-- default window (2,10), short chain: everything is still in the gap -/
 example : (init defaultWin [[], [1]]).view.gap = [1] ∧ (init defaultWin [[], [1]]).view.set = [] := by decide
 example : (init defaultWin [[], [1], [2]]).view.gap = [2] ∧ (init defaultWin [[], [1], [2]]).view.set = [1] := by decide
+
+/-! ## the consumers of the view
+
+`get_tx_status` (tx-pool/src/process.rs) files a transaction by the view: `set` first, then `gap`,
+else fresh (`Window.txStatus`, as coded). `_update_tx_pool_for_reorg` moves the pooled entries
+(`Window.stageAfter`). Both are tied by the node stream family `pool`. -/
+
+/-- A transaction is filed Proposed (committable in the next block: staged, packaged into the block
+template) exactly when its id is proposed at distance `w_close..w_far`, also when it is proposed AGAIN
+closer than `w_close` (an id in both parts of the view is Proposed). -/
+theorem status_proposed_iff_in_set {w : Win} (hw : WinOk w) {s : Node} (h : Reach w s) (x : Nat) :
+    txStatus s.view x = .proposed ↔ InSet w s.chain x := by
+  rw [txStatus_proposed_iff, (reach_inv hw h).view.1 x]
+
+/-- … Gap exactly when it is proposed closer than `w_close` and nowhere in the committable part … -/
+theorem status_gap_iff {w : Win} (hw : WinOk w) {s : Node} (h : Reach w s) (x : Nat) :
+    txStatus s.view x = .gap ↔ InGap w s.chain x ∧ ¬ InSet w s.chain x := by
+  rw [txStatus_gap_iff, (reach_inv hw h).view.1 x, (reach_inv hw h).view.2 x]
+
+/-- … and fresh (pending) exactly when it is in no part of the window. -/
+theorem status_fresh_iff {w : Win} (hw : WinOk w) {s : Node} (h : Reach w s) (x : Nat) :
+    txStatus s.view x = .fresh ↔ ¬ InSet w s.chain x ∧ ¬ InGap w s.chain x := by
+  rw [txStatus_fresh_iff, (reach_inv hw h).view.1 x, (reach_inv hw h).view.2 x]
+
+/-- The pool and the block verifier agree: a transaction is filed Proposed iff the commit verifier
+accepts a next block that commits it. -/
+theorem status_proposed_iff_verifier_accepts {w : Win} (hw : WinOk w) {s : Node} (h : Reach w s)
+    (x : Nat) :
+    txStatus s.view x = .proposed ↔ commitOk w s.chain s.chain.length [x] = true := by
+  rw [txStatus_proposed_iff, commit_rule_eq_view hw h]
+  simp
+
+/-- With the two tests of `get_tx_status` swapped, a re-proposed id (in `set` and in `gap`) is filed
+Gap although it is committable (window (2,4); 7 proposed in blocks 1 and 3, next block 4). -/
+theorem status_gap_first_misfiles :
+    ∃ s, Reach ⟨2, 4⟩ s ∧ InSet ⟨2, 4⟩ s.chain 7 ∧ txStatus s.view 7 = .proposed ∧
+      txStatusGapFirst s.view 7 = .gap :=
+  ⟨(switch ⟨2, 4⟩ (init ⟨2, 4⟩ [[]]) 0 [[7], [], [7]]).1, .switch 0 _ .boot (by decide),
+    ⟨1, by decide, by decide, by decide, by decide, by decide⟩, by decide, by decide⟩
+
+/-- The pool's stage move on a main-chain change (`_update_tx_pool_for_reorg`, mine mode): an entry
+whose stage before agreed with the old view on "Proposed" is Proposed afterwards exactly when its id
+is committable on the new chain; in particular the entries moved back from Proposed are exactly
+those whose ids left the window (`removed_eq_left_window`). -/
+theorem stage_after_proposed_iff_in_set {w : Win} (hw : WinOk w) {s : Node} (h : Reach w s)
+    {common : Nat} (hcommon : common < s.chain.length) (branch : List Ids) (st : Stage) (x : Nat)
+    (hst : st = .proposed → InSet w s.chain x) :
+    stageAfter (switch w s common branch).2 (switch w s common branch).1.view st x = .proposed ↔
+      InSet w (switch w s common branch).1.chain x := by
+  have hold := (reach_inv hw h).view.1
+  have hnew := (reach_inv hw (Reach.switch common branch h hcommon)).view.1
+  rw [← hnew x]
+  apply stageAfter_proposed_iff (old := s.view)
+  · simp only [CkbVerif.Window.switch]
+    exact finalize_removed
+  · intro e; exact (hold x).mpr (hst e)
+
+/-! ## switch-back reorganisations (A → B → A')
+
+`Window.switch w s common branch` takes ALL attached blocks in `branch`, whether they are new or were
+attached (and verified) before: `update_proposal_table` inserts a row for each of them
+(`fork.attached_blocks()`, not only the `fork.verified_len()..` suffix). So `Reach` already contains
+every switch-back; the statements below make it explicit. -/
+
+/-- Leaving the chain at `common` for any branch `b` and coming back (the old blocks above `common`
+re-attached, then `ext`) restores the chain, extended by `ext`. -/
+theorem switch_back_chain_eq {w : Win} {s : Node} {common : Nat} (hcommon : common < s.chain.length)
+    (b ext : List Ids) :
+    (switch w (switch w s common b).1 common (s.chain.drop (common + 1) ++ ext)).1.chain =
+      s.chain ++ ext := by
+  simp only [switch_chain]
+  exact switch_back_chain hcommon b ext
+
+/-- After A → B → A' the view is exactly the window of the restored chain `A ++ ext`: the ids of the
+re-attached (previously verified) blocks are back in `set` / `gap`. -/
+theorem switch_back_view {w : Win} (hw : WinOk w) {s : Node} (h : Reach w s) {common : Nat}
+    (hcommon : common < s.chain.length) (b ext : List Ids) :
+    let s' := (switch w (switch w s common b).1 common (s.chain.drop (common + 1) ++ ext)).1
+    (∀ x, x ∈ s'.view.set ↔ InSet w (s.chain ++ ext) x) ∧
+    (∀ x, x ∈ s'.view.gap ↔ InGap w (s.chain ++ ext) x) := by
+  intro s'
+  have hb : Reach w (switch w s common b).1 := .switch common b h hcommon
+  have hc2 : common < (switch w s common b).1.chain.length := by
+    rw [switch_chain, newChain_length hcommon]; omega
+  have hr : Reach w s' := .switch common _ hb hc2
+  have hv := view_eq_window_reach hw hr
+  have hce : s'.chain = s.chain ++ ext := switch_back_chain_eq hcommon b ext
+  rw [hce] at hv
+  exact hv
+
+/-- … hence the same as if the node had never left A (`switch` at the old tip with `ext`), and the
+same as the view rebuilt at start-up from the restored chain. -/
+theorem switch_back_eq_never_left {w : Win} (hw : WinOk w) {s : Node} (h : Reach w s) {common : Nat}
+    (hcommon : common < s.chain.length) (b ext : List Ids) (x : Nat) :
+    let s' := (switch w (switch w s common b).1 common (s.chain.drop (common + 1) ++ ext)).1
+    (x ∈ s'.view.set ↔ x ∈ (switch w s (s.chain.length - 1) ext).1.view.set) ∧
+    (x ∈ s'.view.gap ↔ x ∈ (switch w s (s.chain.length - 1) ext).1.view.gap) ∧
+    (x ∈ s'.view.set ↔ x ∈ (init w (s.chain ++ ext)).view.set) ∧
+    (x ∈ s'.view.gap ↔ x ∈ (init w (s.chain ++ ext)).view.gap) := by
+  intro s'
+  have hpos := (reach_inv hw h).chain.pos
+  have hback := switch_back_view hw h hcommon b ext
+  have hd : Reach w (switch w s (s.chain.length - 1) ext).1 := .switch _ ext h (by omega)
+  have hdv := view_eq_window_reach hw hd
+  have hdc : (switch w s (s.chain.length - 1) ext).1.chain = s.chain ++ ext := by
+    rw [switch_chain]
+    have : s.chain.length - 1 + 1 = s.chain.length := by omega
+    rw [this, List.take_length]
+  rw [hdc] at hdv
+  have hr : Reach w s' := by
+    have hb : Reach w (switch w s common b).1 := .switch common b h hcommon
+    have hc2 : common < (switch w s common b).1.chain.length := by
+      rw [switch_chain, newChain_length hcommon]; omega
+    exact .switch common _ hb hc2
+  have hi := init_eq_incremental hw hr
+  have hce : s'.chain = s.chain ++ ext := switch_back_chain_eq hcommon b ext
+  rw [hce] at hi
+  exact ⟨by rw [hback.1 x, hdv.1 x], by rw [hback.2 x, hdv.2 x], (hi.1 x).symm, (hi.2 x).symm⟩
+
+/-- A variant of `update_proposal_table` that skips the first `fork.verified_len()` attached blocks
+loses their rows: window (1,5), main chain g,[9],[1],[2]; branch [3],[4],[5] from block 1 takes over;
+the switch-back re-attaches [1],[2] (verified before) and attaches [6],[7]. The code as written has
+1 and 2 in the committable set again, the variant has lost them — and a restart would bring them
+back, so the variant's incremental view and the start-up view differ. -/
+theorem skip_verified_loses_rows :
+    let w : Win := ⟨1, 5⟩
+    let sA := (switch w (init w [[]]) 0 [[9], [1], [2]]).1
+    let sB := (switch w sA 1 [[3], [4], [5]]).1
+    (switch w sB 1 [[1], [2], [6], [7]]).1.view.set = [9, 7, 6, 2, 1] ∧
+    (switchSkip w sB 1 [[1], [2], [6], [7]] 2).1.view.set = [9, 7, 6] ∧
+    (init w (switchSkip w sB 1 [[1], [2], [6], [7]] 2).1.chain).view.set = [7, 6, 2, 1, 9] := by
+  decide
+
+/-- A variant of the verifier's walk whose far end is computed from the parent's number accepts a
+commitment at distance `w_far + 1`, one block after the view dropped the id (window (2,4), id 7
+proposed in block 1, next block 6): the view and the variant disagree; the walk as coded agrees
+(`view_agrees_with_verifier`). On a chain shorter than `w_far + 1` both clamp at genesis and the
+difference is invisible. -/
+theorem verifier_from_parent_disagrees :
+    let w : Win := ⟨2, 4⟩
+    let s := (switch w (init w [[]]) 0 [[7], [], [], [], []]).1
+    s.view.set = [] ∧ verifierIds w s.chain s.chain.length = [] ∧
+    verifierIdsFromParent w s.chain s.chain.length = [7] := by
+  decide
+
+/-! non-vacuity of the consumer / switch-back statements -/
+example : txStatus exNode.view 4 = .proposed ∧ txStatus exNode.view 1 = .fresh := by decide
+example : txStatus (switch ⟨2, 4⟩ (init ⟨2, 4⟩ [[]]) 0 [[7], [], [8]]).1.view 8 = .gap := by decide
+example : stageAfter (switch ⟨1, 2⟩ exNode 1 [[5], [6], [7]]).2
+    (switch ⟨1, 2⟩ exNode 1 [[5], [6], [7]]).1.view .proposed 4 = .pending := by decide
+example : stageAfter (switch ⟨1, 2⟩ exNode 1 [[5], [6], [7]]).2
+    (switch ⟨1, 2⟩ exNode 1 [[5], [6], [7]]).1.view .pending 7 = .proposed := by decide
+/-- switch-back on `exNode` (chain g,[1],[2,3],[4]): B = [5],[6],[7] from block 1, back with ext [8] -/
+example : (switch ⟨1, 2⟩ (switch ⟨1, 2⟩ exNode 1 [[5], [6], [7]]).1 1
+    (exNode.chain.drop 2 ++ [[8]])).1.chain = [[], [1], [2, 3], [4], [8]] := by decide
+example : (switch ⟨1, 2⟩ (switch ⟨1, 2⟩ exNode 1 [[5], [6], [7]]).1 1
+    (exNode.chain.drop 2 ++ [[8]])).1.view.set = [8, 4] := by decide
 
 /-- Why `ChainOk.genesis` is needed: with a proposal in the genesis block the start-up view offers
 it as committable while the verifier (which stops at genesis) would reject it. -/
